@@ -1,7 +1,45 @@
 """Bounded stand-ins (never counted as proved).  A Bounded task runs in a worker process and returns
 dict(name, engine, evaluations, distinct_nontrivial, rule, bounds, exhaustive, samples, failures=[{fingerprint, what, replay}], undecided=[...])."""
+import os
 import time
 import traceback
+
+_CAP = dict(installed=False, hit=0)
+
+
+def install_solver_cap():
+    """Every SolverWrapper created inside a bounded harness gets a finite HiGHS time limit unless the harness (or the library) already set one: a CHANGED
+    library may build a model that HiGHS cannot finish (seeded change C01-m11 kept one check busy for over half an hour).  A solve that ends at this
+    cap is counted in _CAP['hit']; run_cases turns the case in which that happened into UNDECIDED - never into a verdict.  On the unchanged tree the
+    instances of the universes solve in milliseconds to seconds, the cap (default 120 s, VERIF_SOLVER_CAP_S) is never reached."""
+    if _CAP["installed"]:
+        return
+    _CAP["installed"] = True
+    try:
+        import flowpaths.utils.solverwrapper as sw
+    except Exception:      # noqa  (harnesses that never touch the library)
+        return
+    cap = float(os.environ.get("VERIF_SOLVER_CAP_S", "120"))
+    init0, opt0 = sw.SolverWrapper.__init__, sw.SolverWrapper.optimize
+
+    def init(self, *a, **kw):
+        mine = kw.get("time_limit", float("inf")) == float("inf") and kw.get("external_solver", "highs") == "highs"
+        if mine:
+            kw["time_limit"] = cap
+        init0(self, *a, **kw)
+        self._verif_cap = mine
+
+    def optimize(self, *a, **kw):
+        t0 = time.time()
+        r = opt0(self, *a, **kw)
+        try:
+            # a genuine run into the cap (not a status injected by a fault-injection harness): the call really lasted that long
+            if getattr(self, "_verif_cap", False) and time.time() - t0 >= 0.9 * cap and self.get_model_status() == "kTimeLimit":
+                _CAP["hit"] += 1
+        except Exception:      # noqa
+            pass
+        return r
+    sw.SolverWrapper.__init__, sw.SolverWrapper.optimize = init, optimize
 
 
 class Bounded:
@@ -31,6 +69,7 @@ def run_cases(cases, check, chunk=0, nchunks=1, rule="", bounds="", engine="rc",
     failures, samples, undecided = [], [], []
     t0 = time.time()
     complete = True
+    install_solver_cap()
     for idx, case in enumerate(cases):
         if idx % nchunks != chunk:
             continue
@@ -38,10 +77,13 @@ def run_cases(cases, check, chunk=0, nchunks=1, rule="", bounds="", engine="rc",
             complete = False
             break
         ev += 1
+        hit0 = _CAP["hit"]
         try:
             r = check(case)
         except (Exception, SystemExit) as e:
             r = dict(ok=None, nontrivial=False, what="harness exception %s: %s | %s" % (type(e).__name__, e, traceback.format_exc()[-500:]))
+        if _CAP["hit"] != hit0:
+            r = dict(ok=None, nontrivial=False, what="a solver call ended at the harness' own time cap (VERIF_SOLVER_CAP_S): no verdict from this case; outcome was %s" % str(r.get("fingerprint") or r.get("ok"))[:200])
         if r.get("nontrivial"):
             nt += 1
         if r.get("ok") is False:
